@@ -84,6 +84,7 @@ type xchain struct {
 	// gov actor
 	pendingVotes []uint64
 	lastBal      map[string]*big.Int
+	tssm         *tssModel
 	crashAt      int
 	crashIdx     int
 	forwarder    common.Address
@@ -254,13 +255,28 @@ func newWorld(cfg map[string]int64, rec *kernel.Rec) (*world, error) {
 			contents = append(contents, p)
 			c.accepted[o.idx] = map[uint64]bool{uint64(o.Height): true}
 		}
-		for _, r := range w.relayers {
+		if cfg["tss"] != 0 {
+			cs, cons := w.tssClient()
+			p, err := clienttypes.NewCreateClientProposal("create", "tss client", w.tssName(), cs, cons)
+			if err != nil {
+				return nil, err
+			}
+			contents = append(contents, p, clienttypes.NewRegisterRelayerProposal("reg", "tss relayer", w.tss.Acc.String(), []string{w.tssName()}, []string{w.tss.Acc.String()}))
+			c.registry[w.tss.Acc.String()] = map[string]string{w.tssName(): w.tss.Acc.String()}
+		}
+		for ri, r := range w.relayers {
 			var chains, addrs []string
 			for _, o := range w.chains {
 				if o.idx == c.idx {
 					continue
 				}
 				chains = append(chains, o.Cfg.Name)
+				addrs = append(addrs, r.Acc.String())
+			}
+			if cfg["tss"] != 0 && ri == 0 {
+				// an ordinary relayer that is also registered for the TSS chain: registration alone must not
+				// let it speak for that chain
+				chains = append(chains, w.tssName())
 				addrs = append(addrs, r.Acc.String())
 			}
 			contents = append(contents, clienttypes.NewRegisterRelayerProposal("reg", "relayer", r.Acc.String(), chains, addrs))
